@@ -60,7 +60,10 @@ pub fn sig_matches(pattern: &str, sig: &str) -> bool {
   while i < p.len() {
     if p[i] == "**" { return true; }
     if i >= s.len() { return false; }
-    if p[i] != "*" && p[i] != s[i] { return false; }
+    if p[i] != "*" && p[i] != s[i] {
+      // a segment ending in '*' is a prefix pattern for that segment
+      match p[i].strip_suffix('*') { Some(pre) if s[i].starts_with(pre) => {}, _ => return false }
+    }
     i += 1;
   }
   i == s.len()
@@ -103,6 +106,8 @@ pub fn drive(spec: CheckSpec) -> i32 {
     }
   }
 
+  // replay files describe this run only: drop those of earlier runs of the same check
+  if let Ok(rd) = std::fs::read_dir(&spec.replays) { for e in rd.flatten() { if e.path().extension().map(|x| x == "json").unwrap_or(false) { std::fs::remove_file(e.path()).ok(); } } }
   std::fs::create_dir_all(&spec.replays).ok();
   let mut exit = 0;
   let mut known_hit: BTreeMap<String, u64> = BTreeMap::new();
